@@ -403,13 +403,17 @@ def selectTxChannel {σ} (g : Rng σ) (rs : RegionState) (datarate : DR) (frame 
       | .join => do
         let (ch, jc, s) ← p.jc.getNextChannel g s
         pure (joinDr ch, ch, jc, p.mask, s)
-      | .data =>
-        if p.jc.hasBiasAndNotExhausted then do
-          let (ch, jc, s) ← p.jc.getNextChannel g s
-          pure (joinDr ch, ch, jc, p.mask, s)
-        else
-          do
-          let (pref, jc, s) := p.jc.firstDataChannel g s
+      | .data => do
+        -- the bias is only a preference: a biased channel the mask disables is never used
+        let (biased, jc0, s) ← (if p.jc.hasBiasAndNotExhausted then do
+            let (ch, jc, s) ← p.jc.getNextChannel g s
+            let en ← p.mask.isEnabled ch
+            pure ((if en then some ch else none), jc, s)
+          else pure (none, p.jc, s))
+        match biased with
+        | some ch => pure (joinDr ch, ch, jc0, p.mask, s)
+        | none =>
+          let (pref, jc, s) := jc0.firstDataChannel g s
           let d ← unwrapDatarate "datarates()[datarate].unwrap" (← indexDatarate rs.id datarate.toInt.toNat)
           -- the sub-band that served the join is only a preference
           let usePref ← (match pref with
